@@ -28,6 +28,9 @@ func HarnessC06Layout() {
 	x := string([]byte{vByte("x")})
 	cond := vBool("c")
 	variant := vChoice("layout", 3)
+	falsy := []any{0, false, 0.0, 5}[vChoice("falsy", 4)] // printed by an expression-form insert: "0", "0", "0.0", "5"
+	falsyText := []string{"0", "0", "0.0", "5"}
+	_ = falsyText
 	r2 := "@reserve(\"" + n2 + "\")"
 	switch variant {
 	case 1:
@@ -44,12 +47,24 @@ func HarnessC06Layout() {
 	bodies := make([]string, k)
 	for j := 0; j < k; j++ {
 		names[j] = symLetter("insert")
-		if vChoice("form", 2) == 0 {
+		switch vChoice("form", 3) {
+		case 0:
 			page += "@insert(\"" + names[j] + "\")<b" + string([]byte{byte('0' + j)}) + "{{ x }}>@end"
 			bodies[j] = "<b" + string([]byte{byte('0' + j)}) + x + ">"
-		} else {
+		case 1:
 			page += "@insert(\"" + names[j] + "\", x + \"!\")"
 			bodies[j] = x + "!"
+		default:
+			// the value of the expression form is printed whatever it is, also when it is falsy
+			page += "@insert(\"" + names[j] + "\", z)"
+			switch f := falsy.(type) {
+			case int:
+				bodies[j] = []string{"0", "", "", "", "", "5"}[f]
+			case bool:
+				bodies[j] = "0"
+			case float64:
+				bodies[j] = "0.0"
+			}
 		}
 		page += "junk" + string([]byte{byte('1' + j)})
 	}
@@ -91,7 +106,7 @@ func HarnessC06Layout() {
 		second = "<" + second + "><" + second + ">"
 	}
 	want := "H" + x + "[" + fill(n1) + "|" + second + "]T"
-	out, err := tpl.String("page", map[string]any{"x": x, "c": cond})
+	out, err := tpl.String("page", map[string]any{"x": x, "c": cond, "z": falsy})
 	vCover("rendered")
 	vAssert(err == nil, "page-renders")
 	vAssert(vEqStr(out, want), "layout-is-rendered-with-reserves-filled-by-inserts")
@@ -104,7 +119,14 @@ func HarnessC06Layout() {
 func HarnessC06Errors() {
 	vfsReset()
 	x := string([]byte{vByte("x")})
-	switch vChoice("case", 2) {
+	switch vChoice("case", 3) {
+	case 2:
+		// a layout without any reserve: every insert of the page names no reserve
+		vfsWriteFile("templates/layouts/main.tw", "<footer>F</footer>")
+		form := []string{"@insert(\"a\", x)", "@insert(\"a\")body@end"}[vChoice("form", 2)]
+		vfsWriteFile("templates/page.tw", "@use(\"~main\")"+form)
+		tpl, err := newTemplate("templates", ".tw")
+		vAssert(err != nil && tpl == nil, "insert-into-a-layout-without-reserves-is-reported")
 	case 0:
 		vfsWriteFile("templates/page.tw", "@use(\"~nolayout\")@insert(\"a\", x)")
 		tpl, err := newTemplate("templates", ".tw")
